@@ -48,11 +48,12 @@ const (
 	opRefreshC        = nOps + iota // loggers that own their files: File root + asynchronous RollingFile aux, on a real temporary directory
 	opLogAllLevels                  // all 15 entry points through one tag
 	opRegisterInvalid               // RegisterTag with a name outside the language: panics in every state, registers nothing
+	opRefreshD                      // a configuration WITHOUT a root logger (the built-in console logger is the root; the handle "root" the harness holds is bound to it)
 	nOpsExt
 )
 
 var opNames = []string{"Refresh(A)", "Refresh(B)", "Refresh(bad-early)", "Refresh(bad-ref)", "Refresh(bad-prop)", "Destroy", "log", "log-disabled", "write-handle", "RegisterTag", "GetLogger(aux)", "GetLogger(ghost)", "Refresh(bad-start)",
-	"Refresh(C)", "log-all-levels", "RegisterTag(invalid)"}
+	"Refresh(C)", "log-all-levels", "RegisterTag(invalid)", "Refresh(D)"}
 
 var c16FilesUsed bool
 
@@ -73,6 +74,12 @@ func c16ConfA() map[string]string {
 		"appender.ra.type": "Rec", "appender.raux.type": "Rec",
 		"logger.root.type": "Logger", "logger.root.level": "INFO", "logger.root.appenderRef.ref": "ra",
 		"logger.aux.type": "Logger", "logger.aux.level": "INFO", "logger.aux.tags": "_vfx_*", "logger.aux.appenderRef.ref": "raux",
+	}
+}
+func c16ConfD() map[string]string {
+	return map[string]string{
+		"appender.rd.type": "Rec",
+		"logger.aux.type": "Logger", "logger.aux.level": "INFO", "logger.aux.tags": "_vfx_*", "logger.aux.appenderRef.ref": "rd",
 	}
 }
 func c16ConfB() map[string]string {
@@ -106,13 +113,19 @@ func (m *c16Model) sinksFor(via string) []string {
 			}
 			return "file:root"
 		}
+		if which == "D" { // no root logger configured: everything aux does not serve goes to the built-in console logger
+			if via == "tag:_vfx_t1" || via == "handle:aux" {
+				return "rd"
+			}
+			return "console"
+		}
 		if which == "A" {
 			return "ra"
 		}
 		return "rb"
 	}
 	switch m.mode {
-	case "A", "B", "C":
+	case "A", "B", "C", "D":
 		return []string{cfg(m.mode)}
 	case "failedA":
 		return []string{"console", cfg("A"), "nowhere"}
@@ -120,6 +133,8 @@ func (m *c16Model) sinksFor(via string) []string {
 		return []string{"console", cfg("B"), "nowhere"}
 	case "failedC":
 		return []string{"console", cfg("C"), "nowhere"}
+	case "failedD":
+		return []string{"console", cfg("D"), "nowhere"}
 	}
 	return []string{"console"}
 }
@@ -233,8 +248,18 @@ func c16Run(c c16Case, afterOps func(model string)) (string, []Violation, int) {
 			sort.Strings(l)
 			want = strings.Join(l, ",")
 		}
-		if got := strings.Join(log.GetAllTags(), ","); got != want {
+		list := log.GetAllTags()
+		if got := strings.Join(list, ","); got != want {
 			fail("registry-contents", fmt.Sprintf("%s (state %s): GetAllTags()=%s, registered=%s", step, m.mode, got, want))
+		}
+		// the list belongs to the caller: whatever it does with it (here: overwrite it, the in-place filter idiom) the next
+		// call still reports the names registered
+		for i := range list {
+			list[i] = "SCRIBBLED-BY-THE-CALLER"
+		}
+		_ = append(list[:0], "x")
+		if got := strings.Join(log.GetAllTags(), ","); got != want {
+			fail("registry-contents", fmt.Sprintf("%s (state %s): after the caller overwrote the list it had received, GetAllTags()=%s, registered=%s", step, m.mode, got, want))
 		}
 	}
 	for i, o := range c.Ops {
@@ -269,6 +294,8 @@ func c16Run(c c16Case, afterOps func(model string)) (string, []Violation, int) {
 			c16FilesUsed = true
 			os.MkdirAll(c16Dir(), 0755)
 			refresh(step, c16ConfC(), "C", false, false, false)
+		case opRefreshD:
+			refresh(step, c16ConfD(), "D", false, false, false)
 		case opLogAllLevels:
 			for _, ep := range entryPoints() {
 				id := fmt.Sprintf("e%d", n)
@@ -278,7 +305,7 @@ func c16Run(c c16Case, afterOps func(model string)) (string, []Violation, int) {
 					switch m.mode {
 					case "none", "failedNone":
 						sinks = []string{"console"}
-					case "A", "B", "C":
+					case "A", "B", "C", "D":
 						sinks = []string{"nowhere"}
 					default:
 						sinks = []string{"console", "nowhere"}
@@ -316,8 +343,10 @@ func c16Run(c c16Case, afterOps func(model string)) (string, []Violation, int) {
 			switch m.mode {
 			case "none", "failedNone":
 				sinks = []string{"console"}
-			case "failedA", "failedB", "failedC":
+			case "failedA", "failedB", "failedC", "failedD":
 				sinks = []string{"console", "nowhere"}
+			case "D":
+				sinks = []string{"console"} // _vfy_t1 is served by the built-in root, which accepts every level
 			}
 			if pn := safeCall(func() { log.Trace(ctx, tagVfy, func() []log.Field { return []log.Field{log.Msg(id)} }) }); pn != nil {
 				fail("log-call-panicked", fmt.Sprintf("%s: %v", step, pn))
@@ -486,7 +515,7 @@ func init() {
 		seen := map[string]bool{}
 		type node struct{ ops, seeds []int }
 		nSeeds := func(o int) int {
-			if o <= opRefreshBadProp || o == opRefreshC || o == opRefreshBadStart {
+			if o <= opRefreshBadProp || o == opRefreshC || o == opRefreshBadStart || o == opRefreshD {
 				return 6 // the five Refresh operations: every iteration order of maps of <= 3 keys
 			}
 			return 1
